@@ -70,6 +70,7 @@ func (e *Env) Seed() error {
 		`INSERT INTO user_langs(user_id,lang_code) VALUES (1,'go'),(1,'rs'),(2,'go')`,
 		`INSERT INTO memos(id,name,v) VALUES (1,'m1',0),(2,'m2',0)`,
 		`INSERT INTO drafts(id,name,v) VALUES (1,'d1',0),(2,'d2',0)`,
+		`INSERT INTO stamps(id,name,v) VALUES (1,'s1',0)`,
 	}
 	for _, s := range stmts {
 		if _, err := tx.Exec(s); err != nil {
@@ -214,8 +215,9 @@ func (e *Env) RunTrace(caseNo int, op Op, f Fault, ctxTag string, baselinePost s
 	ctx := context.WithValue(context.Background(), ctxKey{}, ctxTag)
 	var cancel context.CancelFunc
 	if f.Mode == "cancel" {
-		// a cold statement cache: under a cancelled context not even a preparation may reach the driver
-		if pdb, ok := e.DB.ConnPool.(*gorm.PreparedStmtDB); ok {
+		// K = 0: a cold statement cache (under a cancelled context not even a preparation may reach the
+		// driver); K = 1: the cache as the earlier runs left it (a cached statement must not run either)
+		if pdb, ok := e.DB.ConnPool.(*gorm.PreparedStmtDB); ok && f.K == 0 {
 			pdb.Reset()
 		}
 		ctx, cancel = context.WithCancel(ctx)
